@@ -144,16 +144,19 @@ def run(sc, tier, seed):
 
 
 def replay(sc, path):
+    """Re-run the history of a saved violation on the real code (every crash point, task restart) and
+    validate it again at verdict level."""
     seg = os.path.join(path, "segment.ndjson")
-    rest = os.path.join(path, "rest_of_trace.ndjson")
-    full = os.path.join(sc.dir, "full.ndjson")
-    with open(full, "w") as f:
-        f.write(open(seg).read())
-        if os.path.exists(rest):
-            f.write(open(rest).read())
-    val = _validate_jobs(sc, [("verdict", full) + VERDICT], parallel=1).get("verdict", EMPTY)
-    if val["accepted"]:
-        print("replay: the recorded history is accepted by the current verdict-level specification")
+    out, meta = V.run_driver(sc, "c08", "quick", 1, timeout=600, args=["replay=" + seg], outname="drv-replay")
+    jobs = [("verdict", f) + VERDICT for f in meta["trace_files"]]
+    val = _validate_jobs(sc, jobs, parallel=2).get("verdict", EMPTY)
+    kfs = V.known_findings("C08")
+    unlisted = [k for k in val["kf"] if k not in kfs]
+    if val["accepted"] and not unlisted:
+        print("replay: the history no longer violates C08 on this tree (%d restarts re-executed)" % meta["traces"])
         return 0
+    for fp, line_no, res in val["rejections"][:3]:
+        s, _ = V.segment_of(fp, line_no)
+        V.log("rejected: " + (s[0][:200] if s else "?") + " ... " + (s[-1][:300] if s else "?"))
     print("VIOLATION property=C08 replay=%s" % path)
     return 1
